@@ -15,3 +15,8 @@ package keeper
 //@ forall d Str
 //@ burns C15/burns-only-what-was-taken-from-the-zero-address: amt(balance, d) != 0
 //@ burns C15/burns-only-the-native-token: d == ptypes.Elys
+
+// ---- C19: the burner walks a Go map (unspecified order) ----------------------------------------
+// Burning two different denoms leaves the same balances, supplies and history rows whichever
+// comes first (whenever both succeed; a failure panics in AfterEpochEnd and commits nothing).
+//@ commutes C19/burns-of-distinct-denoms-commute: denom != denom2 && allOf(balance, c, c.Denom == denom) && allOf(balance2, c, c.Denom == denom2)
